@@ -1245,8 +1245,93 @@ def gen_signatures(o):
             T.fail("mouette/mesh/mesh.py", fn, "signature of %s is %s, expected %s" % (fname, list(zip(names, dfl)), want))
 
 
+# ---------------------------------------------------------------------------------------------- loops and control flow
+def fn_shape(fn):
+    """The iteration skeleton of a codec function: every loop header, every continue / break / return-inside-a-loop, each with the
+    chain of enclosing loop headers and if-tests, and the comprehensions' generators.  The hand-written model (and, for the readers
+    that are not modelled, the independent readers of the check) assume exactly this skeleton: a writer that iterates over
+    something else than the container (`range(len(attribute))`), a reader whose keyword branch leaves the line loop (`break`
+    for `continue`) change it."""
+    loops, ctl = [], []
+
+    def walk(stmts, path, in_loop):
+        for st in stmts:
+            if isinstance(st, (ast.FunctionDef, ast.ClassDef)):
+                continue
+            if isinstance(st, (ast.For, ast.While)):
+                h = ("for %s in %s" % (ast.unparse(st.target), ast.unparse(st.iter))) if isinstance(st, ast.For) else "while %s" % ast.unparse(st.test)
+                loops.append(" / ".join(path + [h]))
+                walk(st.body, path + [h], True)
+                walk(st.orelse, path + [h + " else"], in_loop)
+            elif isinstance(st, ast.If):
+                t = "if %s" % ast.unparse(st.test)
+                walk(st.body, path + [t], in_loop)
+                walk(st.orelse, path + ["else of " + t], in_loop)
+            elif isinstance(st, (ast.With, ast.Try)):
+                walk(st.body, path, in_loop)
+                for h in getattr(st, "handlers", []):
+                    walk(h.body, path + ["except"], in_loop)
+                walk(getattr(st, "orelse", []), path, in_loop)
+                walk(getattr(st, "finalbody", []), path, in_loop)
+            elif isinstance(st, (ast.Continue, ast.Break)):
+                ctl.append(" / ".join(path + [type(st).__name__.lower()]))
+            elif isinstance(st, ast.Return) and in_loop:
+                ctl.append(" / ".join(path + ["return"]))
+    walk(fn.body, [], False)
+    comps = sorted({"%s in %s" % (ast.unparse(g.target), ast.unparse(g.iter)) for n in ast.walk(fn)
+                    if isinstance(n, (ast.ListComp, ast.GeneratorExp, ast.SetComp, ast.DictComp)) for g in n.generators})
+    return {"loops": loops, "control": ctl, "comprehensions": comps}
+
+
+CONTROL_FILE = __file__.rsplit(".", 1)[0] + "_control.json"
+
+
+def current_control():
+    out = {}
+    for f in ("xyz.py", "obj.py", "off.py", "tet.py", "medit.py", "geogram_ascii.py", "stl.py"):
+        src, tree = T.load(IO + f)
+        for n in ast.walk(tree):
+            if isinstance(n, ast.FunctionDef):
+                sh = fn_shape(n)
+                if sh["loops"] or sh["control"] or sh["comprehensions"]:
+                    out["%s:%s" % (f, n.name)] = sh
+    return out
+
+
+def consulted_attributes():
+    """{file: sorted names} of the attributes the export functions look up by name (has_attribute / get_attribute with a literal)"""
+    out = {}
+    for f in ("xyz.py", "obj.py", "off.py", "tet.py", "medit.py", "geogram_ascii.py", "stl.py"):
+        src, tree = T.load(IO + f)
+        names = set()
+        for n in ast.walk(tree):
+            if isinstance(n, (ast.FunctionDef, ast.ClassDef)) and (n.name.startswith("export") or "Writer" in n.name):
+                for c in walk_type(n, ast.Call):
+                    if isinstance(c.func, ast.Attribute) and c.func.attr in ("has_attribute", "get_attribute") and c.args:
+                        if str_const(c.args[0]) is None:
+                            continue      # a name held in a variable: the generic attribute loop of the geogram exporter
+                        names.add(c.args[0].value)
+        out[f] = sorted(names)
+    return out
+
+
+def gen_control(o):
+    import json
+    cur = current_control()
+    want = json.load(open(CONTROL_FILE))
+    for k in sorted(set(cur) | set(want)):
+        if cur.get(k) != want.get(k):
+            a, b = cur.get(k) or {}, want.get(k) or {}
+            diff = ["%s: now %s, modelled %s" % (part, [x for x in a.get(part, []) if x not in b.get(part, [])],
+                                                 [x for x in b.get(part, []) if x not in a.get(part, [])])
+                    for part in ("loops", "control", "comprehensions") if a.get(part) != b.get(part)]
+            raise TranslationError("%s%s: the loops / control flow of %s are not the ones the model and the readers of the check were written "
+                                   "against (%s)" % (IO, k.split(":")[0], k.split(":")[1], "; ".join(diff)[:600]))
+    o.d("(* loops, continue / break / return and comprehension generators of %d codec functions agree with vf/translate/c04_control.json *)" % len(cur))
+
+
 # ---------------------------------------------------------------------------------------------- main
-GENS = [gen_io, gen_mesh, gen_xyz, gen_obj, gen_off, gen_tet, gen_medit, gen_geogram, gen_stl, gen_signatures]
+GENS = [gen_io, gen_mesh, gen_xyz, gen_obj, gen_off, gen_tet, gen_medit, gen_geogram, gen_stl, gen_signatures, gen_control]
 
 
 def gen():
